@@ -198,7 +198,14 @@ Proof.
     right. split; [exact Hnil | split; [exact Hnz | exact Hm]].
 Qed.
 
-(* for synsets the form belongs to the entry of a sense of the synset; the pos filter is on the synset *)
+Lemma sel_cond_inv : forall (ids : list Z) l,
+  (if nonempty ids then z_in l ids else true) = true -> ids = [] \/ In l ids.
+Proof.
+  intros ids l H. destruct ids as [|i ids']; [left; reflexivity | right]. simpl in H. apply z_in_In. exact H.
+Qed.
+
+(* for synsets the form belongs to the entry of a sense of the synset, and that sense is one of the selected lexicons
+   (F22); the pos filter is on the synset *)
 Theorem synsets_have_matching_form : forall w form pos ili x,
   In x (Wordnet_synsets d w (Some form) pos ili) ->
   exists p fs ss, In (p, fs) (candidates w form pos)
@@ -206,6 +213,7 @@ Theorem synsets_have_matching_form : forall w form pos ili x,
     /\ (truthy p = true -> sy_pos ss = p)
     /\ (fs = [] \/ exists f _s, In f (t_forms d) /\ In _s (t_senses d)
           /\ se_entry_rowid _s = fm_entry_rowid f
+          /\ (wn_lexicon_ids w = [] \/ In (se_lexicon_rowid _s) (wn_lexicon_ids w))
           /\ find_by sy_rowid (se_synset_rowid _s) (t_synsets d) = Some ss
           /\ matched w (pass w mk_Synset (synsets_query w ili) (fun f => f) (candidates w form pos) = []) fs f).
 Proof.
@@ -220,10 +228,12 @@ Proof.
     (split; [exact Hc|]); (split; [exact Hss|]); (split; [reflexivity|]);
     (split; [exact (Hpos ss _ Hcond)|]).
   - destruct fs as [|f0 fs']; [left; reflexivity | right].
-    destruct Hform as [f [_s [Hf [Hs [Es Ess]]]]]; [discriminate|]. apply matching_forms_sound in Hf.
+    destruct Hform as [f [_s [Hf [Hs [Es [El Ess]]]]]]; [discriminate|]. apply matching_forms_sound in Hf.
+    apply sel_cond_inv in El.
     exists f, _s. repeat split; try tauto. left. tauto.
   - destruct fs as [|f0 fs']; [left; reflexivity | right].
-    destruct Hform as [f [_s [Hf [Hs [Es Ess]]]]]; [simpl; discriminate|]. apply matching_forms_sound in Hf.
+    destruct Hform as [f [_s [Hf [Hs [Es [El Ess]]]]]]; [simpl; discriminate|]. apply matching_forms_sound in Hf.
+    apply sel_cond_inv in El.
     exists f, _s. repeat split; try tauto. right. tauto.
 Qed.
 
@@ -313,18 +323,19 @@ Qed.
 Theorem synsets_complete : forall w query pos ss _s f,
   db_ok d = true -> wn_lemmatizer w = None ->
   In ss (t_synsets d) -> in_selection w (sy_lexicon_rowid ss) -> pos_allows pos (sy_pos ss) ->
-  In _s (t_senses d) -> find_by sy_rowid (se_synset_rowid _s) (t_synsets d) = Some ss ->
+  In _s (t_senses d) -> in_selection w (se_lexicon_rowid _s) ->
+  find_by sy_rowid (se_synset_rowid _s) (t_synsets d) = Some ss ->
   In f (t_forms d) -> fm_entry_rowid f = se_entry_rowid _s -> fm_form f = query ->
   (wn_search_all_forms w = true \/ fm_rank f = Some 0) ->
   exists x, In x (Wordnet_synsets d w (Some query) pos None) /\ ss__id x = sy_rowid ss.
 Proof.
-  intros w query pos ss _s f Hok Hlem Hss Hsel Hpos Hs Ess Hf Ef Eq Hr.
+  intros w query pos ss _s f Hok Hlem Hss Hsel Hpos Hs Hsels Ess Hf Ef Eq Hr.
   assert (Hcond : synset_conditions d None pos None (wn_lexicon_ids w) ss = true).
   { unfold synset_conditions. simpl truthy. cbv iota.
     rewrite (pos_allows_cond _ _ Hpos), (in_selection_cond _ _ Hsel). reflexivity. }
   assert (Hq : In (synset_columns d ss) (synsets_query w None [query] pos (wn_normalizer w))).
   { unfold synsets_query. apply find_synsets_iff. exists ss. split; [exact Hss|]. split; [reflexivity|].
-    split; [exact Hcond|]. intros _. exists f, _s. split; [|split; [exact Hs | split; [symmetry; exact Ef | exact Ess]]].
+    split; [exact Hcond|]. intros _. exists f, _s. split; [|split; [exact Hs | split; [symmetry; exact Ef | split; [exact (in_selection_cond _ _ Hsels) | exact Ess]]]].
     apply matching_forms_complete; [exact (ok_forms d Hok) | exact Hf | apply exact_form_matches; assumption]. }
   assert (Hfirst : In (mk_Synset w (synset_columns d ss))
                       (pass w mk_Synset (synsets_query w None) (fun f0 => f0) (candidates w query pos))).
